@@ -212,7 +212,19 @@ class Generator(object):
         else:
             minimum_length = 0
 
-        if maximum > 4294967295:
+        if minimum < 0:
+            # Signed type.
+            if maximum > 2147483647:
+                maximum_length = 64
+            elif maximum > 32767:
+                maximum_length = 32
+            elif maximum > 127:
+                maximum_length = 16
+            elif maximum > 0:
+                maximum_length = 8
+            else:
+                maximum_length = 0
+        elif maximum > 4294967295:
             maximum_length = 64
         elif maximum > 65535:
             maximum_length = 32
